@@ -334,6 +334,9 @@ func (s *Session) Model(pc []*Term, extra *Term, vars []*Term) (Result, map[stri
 			if v.Op == OpApp && v.Name == "uf_lower" && len(v.Args) == 1 && v.Args[0].Op == OpVar {
 				alias[r] = "lower(" + v.Args[0].Name + ")"
 			}
+			if v.Op == OpApp && (v.Name == "uf_hasprefix" || v.Name == "uf_hassuffix") && len(v.Args) == 2 && v.Args[0].Op == OpVar && v.Args[1].IsConst() {
+				alias[r] = v.Name[3:] + "(" + v.Args[0].Name + ")|" + v.Args[1].S
+			}
 		}
 		defer func() {
 			for r, a := range alias {
